@@ -1085,35 +1085,30 @@ impl<'a> CompactionIterator<'a> {
 			//   3. Therefore, any snapshot that could see the old version will see the newer one
 			//      instead - the old version is redundant
 			//
-			// Exception: When versioning is enabled and no snapshots exist, we keep
-			// old versions based on retention policy, not snapshot visibility.
+			// Exception: When versioning is enabled, we keep old versions based on
+			// retention policy, not snapshot visibility.
 
 			let current_visibility = self.find_earliest_visible_snapshot(seq_num)?;
 
-			// Check if this version is superseded by a newer version
-			let superseded = if let Some(newer_vis) = newer_version_visibility {
-				// Can we drop superseded versions in this scenario?
-				let snapshot_allows_drop = match current_visibility {
-					// Active snapshots exist - use visibility boundaries to decide
-					SnapshotVisibility::BoundedBySnapshot(_) => true,
-					SnapshotVisibility::NewerThanAllSnapshots => true,
-					// No snapshots - only drop if versioning is disabled
-					// (with versioning enabled, retention policy decides instead)
-					SnapshotVisibility::NoActiveSnapshots => !self.enable_versioning,
-				};
-
-				// Superseded = not latest AND in same visibility boundary AND allowed to drop
-				snapshot_allows_drop
-					&& !is_latest && self.same_visibility_boundary(newer_vis, current_visibility)
+			// Is this version hidden from every snapshot by a newer version in the
+			// same visibility boundary?
+			let hidden_by_newer = if let Some(newer_vis) = newer_version_visibility {
+				!is_latest && self.same_visibility_boundary(newer_vis, current_visibility)
 			} else {
-				// This is the first (newest) version - can't be superseded
+				// This is the first (newest) version - nothing hides it
 				false
 			};
 
+			// Check if this version is superseded by a newer version.
+			// A hidden version is redundant only if versioning is disabled; with
+			// versioning enabled the retention policy below decides instead, whether
+			// or not snapshots happen to be open during this compaction.
+			let superseded = hidden_by_newer && !self.enable_versioning;
+
 			// Is this version required by an active snapshot?
-			// (Only matters if not already superseded by a newer version)
+			// (Only matters if not hidden by a newer version)
 			let required_by_snapshot =
-				!superseded && self.must_preserve_for_snapshot(current_visibility);
+				!hidden_by_newer && self.must_preserve_for_snapshot(current_visibility);
 
 			// ===== DETERMINE IF ENTRY IS STALE =====
 			// Stale entries are filtered out during compaction
